@@ -21,4 +21,5 @@ INVARIANT ServerConnectionsAreAcknowledged
 INVARIANT ClientConnectionsEchoItsNonce
 INVARIANT Limits
 INVARIANT NoViolation
+INVARIANT NoAmplification
 CHECK_DEADLOCK FALSE
